@@ -13,7 +13,8 @@ MODULES = ('cryptoparser.tls.record', 'cryptoparser.tls.subprotocol', 'cryptopar
 def units(tier, seed):
     us, unc = k6family.make_units('C06', MODULES, tier)
     UNCOVERED[:] = unc
-    return us
+    from checks import foundation
+    return list(us) + foundation.units(tier, seed)
 
 
 FINDING_REPLAYS = regions.finding_replays('C06')
